@@ -14,6 +14,7 @@ from . import core
 CHECKS = {
     "C03": ("c03", "model_checking"),
     "C04": ("c04", "other"),
+    "C05": ("c05", "exploration"),
     "C06": ("c06", "model_checking"),
     "C01": ("c01", "model_checking"),
     "C02": ("c02", "model_checking"),
